@@ -340,3 +340,25 @@ func TestC12Enum(t *testing.T) {
 	fmt.Sscanf(getenv("VERIF_SEED", "1"), "%d", &seed)
 	enumProp(t, "C12", fmt.Sprintf("sample%d", sampled), total/stride, func(i int) C12Case { return c12Enum(sampled, (i*stride+seed)%total) }, execC12)
 }
+
+// FuzzC12: coverage-guided search over envelope sequences; each input byte pair selects (shape, id).
+func FuzzC12(f *testing.F) {
+	f.Add([]byte{0, 0, 10, 1, 13, 1, 15, 1})
+	f.Add([]byte{2, 0, 11, 1, 13, 0, 17, 1, 0, 1})
+	f.Add([]byte{10, 0, 13, 0, 13, 0, 13, 0, 15, 0, 13, 0})
+	f.Fuzz(func(t *testing.T, data []byte) {
+		al := len(c12Alphabet())
+		c := C12Case{Ser: len(data)%2 == 1}
+		for i := 0; i+1 < len(data) && i < 80; i += 2 {
+			c.Seq = append(c.Seq, C12Sym{Shape: int(data[i]) % al, ID: uint64(data[i+1]%2) + 1})
+		}
+		if len(c.Seq) == 0 {
+			return
+		}
+		journal("C12", "random", c)
+		if v := execC12(t, c); v.Fail != "" {
+			writeReplay("C12", "random", v.Fail, c, v.Detail)
+			t.Fatalf("VERIF-FAIL C12/fuzz: %s", v.Fail)
+		}
+	})
+}
